@@ -116,6 +116,30 @@ fn handle(line: &str) -> String {
                 &d.and_hms_nano_opt(sod / 3600, (sod / 60) % 60, sod % 60, ns.parse().unwrap()).unwrap());
             if hdr.is_expired_at(&now) { "1".into() } else { "0".into() }
         }
+        ["event", s] => {
+            let st = String::from_utf8(bytes_of_hex(s)).expect("utf8");
+            event_line(&st)
+        }
+        ["eventblock", a] => {
+            let a: u8 = a.parse().unwrap();
+            let mut h = FNV_INIT;
+            for b in 0..128u8 {
+                for c in 0..128u8 {
+                    let st = String::from_utf8(vec![a, b, c]).unwrap();
+                    let e = sameold::EventCode::from(&st);
+                    for x in format!("{:?}", e.phenomenon()).bytes() {
+                        h = fnv_step(h, x as u32);
+                    }
+                    h = fnv_step(h, e.significance() as u8 as u32);
+                }
+            }
+            format!("{:016x}", h)
+        }
+        ["orig", o, c] => {
+            let o = String::from_utf8(bytes_of_hex(o)).expect("utf8");
+            let c = String::from_utf8(bytes_of_hex(c)).expect("utf8");
+            hex_of_bytes(format!("{:?}", sameold::Originator::from_org_and_call(&o, &c)).as_bytes())
+        }
         ["utf8", s] => {
             if std::str::from_utf8(&bytes_of_hex(s)).is_ok() {
                 "1".into()
@@ -125,6 +149,21 @@ fn handle(line: &str) -> String {
         }
         _ => verif_harness_ext(&toks),
     }
+}
+
+fn event_line(st: &str) -> String {
+    let e = sameold::EventCode::from(st);
+    let b = |x: bool| if x { "1" } else { "0" };
+    format!(
+        "{} {} {} {} {} {} {}",
+        hex_of_bytes(format!("{:?}", e.phenomenon()).as_bytes()),
+        e.significance() as u8,
+        hex_of_bytes(e.to_string().as_bytes()),
+        b(e.is_test()),
+        b(e.phenomenon().is_national()),
+        b(e.phenomenon().is_weather()),
+        b(e.is_unrecognized())
+    )
 }
 
 fn issue_header(j: u32, h: u32, m: u32, dh: u32, dm: u32) -> MessageHeader {
